@@ -578,6 +578,14 @@ class FromKafkaBatched(Source):
                     self.positions[tp.partition] = tp.offset
                 break
 
+        # The reset policy applies to the partitions known now (those found
+        # later are new and read from their beginning), each of them taking
+        # its position from the first watermarks obtained for it: that look-up
+        # can fail, and then the partition is skipped in that round.
+        start_at_end = set()
+        if self.consumer_params.get('auto.offset.reset') in ('latest', 'largest', 'end'):
+            start_at_end = set(range(self.npartitions))
+
         while not self.stopped:
             out = []
 
@@ -609,9 +617,9 @@ class FromKafkaBatched(Source):
                 except (RuntimeError, ck.KafkaException):
                     continue
                 self.started = True
-                if 'auto.offset.reset' in self.consumer_params.keys():
-                    if self.consumer_params['auto.offset.reset'] == 'latest' and \
-                            self.positions[partition] == -1001:
+                if partition in start_at_end:
+                    start_at_end.discard(partition)
+                    if self.positions[partition] == -1001:
                         self.positions[partition] = high
                 current_position = self.positions[partition]
                 lowest = max(current_position, low)
